@@ -192,6 +192,7 @@ def gen_plan(rng):
         if k == "records":
             ops.append({"op": "records", "src": rng.randrange(n_src),
                         "attrs": gen_attrs(rng),
+                        "group": rng.choice((0, 0, 1, 2, 3)),
                         "form": rng.choice(("dict", "list", "iter_dict",
                                             "iter_list", "to_dict", "to_list"))})
     interrupts = [[rng.randrange(len(ops)),
@@ -209,6 +210,11 @@ def gen_plan(rng):
                   "write_fail": rng.choice((errno.ENOSPC, errno.EIO)),
                   "close_fail": errno.EIO},
         "interrupts": interrupts,
+        # for which first-fault points (indices into the sorted list of
+        # single faults that ended in a clean recovery) a second fault is
+        # enumerated inside the recovery op
+        "double": [rng.randrange(10 ** 6)
+                   for _ in range(rng.choice((0, 1, 1, 2)))],
     }
 
 
@@ -525,7 +531,7 @@ class Runner:
             if path in self.dirty:
                 return {"skipped": "path has an open writer"}
             if path in fs.files:
-                del fs.files[path]          # the user's doing, not an I/O call
+                fs.user_delete(path)        # the user's doing, not an I/O call
                 self.bump("file_deleted_by_user")
             self.model.pop(path, None)
             return {"ok": None}
@@ -538,7 +544,31 @@ class Runner:
                       for t in tracts]
             want_l = [[getattr(t, a, f"{a}: n/a") for a in attrs]
                       for t in tracts]
-            if form == "dict":
+            # the documented forms accept names grouped in (nested) lists
+            g = op.get("group", 0)
+            if g and len(attrs) >= 2:
+                h = len(attrs) // 2
+                if g == 1:
+                    grouped = [attrs[:h], attrs[h:]]
+                elif g == 2:
+                    grouped = [[attrs[0], attrs[1:h + 1]], attrs[h + 1:]]
+                else:
+                    grouped = [attrs[:1], [attrs[1:h], [attrs[h:]]]]
+                grouped = [x for x in grouped if x != []]
+                self.bump("records_grouped_names")
+                if form == "dict":
+                    got, want = src.tracts_to_dict(*grouped), want_d
+                elif form == "list":
+                    got, want = src.tracts_to_list(grouped), want_l
+                elif form == "iter_dict":
+                    got, want = list(src.iter_to_dict(grouped)), want_d
+                elif form == "iter_list":
+                    got, want = list(src.iter_to_list(*grouped)), want_l
+                elif form == "to_dict":
+                    got, want = [t.to_dict(*grouped) for t in tracts], want_d
+                else:
+                    got, want = [t.to_list(grouped) for t in tracts], want_l
+            elif form == "dict":
                 got, want = src.tracts_to_dict(attrs), want_d
             elif form == "list":
                 got, want = src.tracts_to_list(*attrs), want_l
@@ -577,7 +607,7 @@ def durable(fs):
 
 
 def run_workload(plan, srcs, fault=None, interrupt=None, twin=None,
-                 fs_factory=None):
+                 fs_factory=None, fault2=None, twin2=None):
     """
     One execution.  fault-free when fault is None and interrupt is None;
     otherwise exactly one fault / interrupt is armed and the post-fault
@@ -596,6 +626,7 @@ def run_workload(plan, srcs, fault=None, interrupt=None, twin=None,
     ops = plan["ops"] + [{"op": "tw_close", "w": 0, "final": True},
                          {"op": "tw_close", "w": 1, "final": True}]
     outcomes, after, problems = [], [], []
+    kept_exc = []
     faulted_op = None
     with fs.installed():
         for k, op in enumerate(ops):
@@ -612,12 +643,15 @@ def run_workload(plan, srcs, fault=None, interrupt=None, twin=None,
                     out = R.do(k, op)
             except SimCrash:
                 out = {"raised": "SimCrash"}
-            except SimInterrupt:
+            except SimInterrupt as e:
                 out = {"raised": "SimInterrupt"}
                 R.bump("interrupt_fired")
+                kept_exc.append(e)   # a caller's error log keeps it alive
             except Exception as e:  # noqa - outcome value
                 out = {"raised": type(e).__name__,
                        "oserror": isinstance(e, OSError)}
+                if twin is not None:
+                    kept_exc.append(e)
             outcomes.append(out)
             after.append(durable(fs))
             newly_fired = fs.fired is not None and fired_before is None
@@ -840,51 +874,170 @@ def run_workload(plan, srcs, fault=None, interrupt=None, twin=None,
                                            "diff": diff, "repair": did0}})
             except Exception as e:  # noqa - a broken writer may refuse; fine
                 R.bump("writer_reuse_raised:" + type(e).__name__)
-        # ---- repair + one recovery op (progress once faults stop)
+        # ---- repair + one recovery op (progress once faults stop) -- or,
+        # with ``fault2``, a SECOND fault inside that recovery op, another
+        # repair, and then the recovery that must finally succeed
+        extra = {}
         if fpath is not None:
+            attrs = op.get("attrs") or next(
+                (w["attrs"] for w in R.writers.values()
+                 if w["path"] == fpath), ["trs", "desc"])
+            src = R.srcs[0]
+            tr = tracts_of(pytrs, src)
+
+            def recover(variant):
+                if variant % 2 == 0:
+                    src.tracts_to_csv(attrs, fpath, "a")
+                else:
+                    w2 = R.TW(attrs, fpath, "a")
+                    try:
+                        w2.write(src)
+                    finally:
+                        # a caller's ``finally: writer.close()``
+                        if w2.file is not None:
+                            w2.close()
+
+            def expected_rows():
+                exp_ = []
+                if fpath not in fs.files:
+                    exp_.append(header_spec(pytrs, attrs, None, None, None))
+                return exp_ + [[cell_spec(t, a) for a in attrs] for t in tr]
+
+            def check_append(rows_before, exp_, tag, did_):
+                rows_after = parse_csv(fs.files.get(fpath, b""))
+                if rows_before is None:
+                    return
+                if rows_after[:len(rows_before)] != rows_before:
+                    problems.append({
+                        "oracle": tag + "_rewrote_old_rows", "path": kindf,
+                        "detail": {"op_index": k, "fault": fault,
+                                   "fault2": fault2}})
+                    return
+                diff = rows_match(exp_, rows_after[len(rows_before):])
+                if diff:
+                    problems.append({
+                        "oracle": tag + "_append_wrong", "path": _cls(diff),
+                        "detail": {"op_index": k, "fault": fault,
+                                   "fault2": fault2, "diff": diff,
+                                   "repair": did_}})
+
             did = fs.repair(fpath)
             R.bump("repair:" + did)
             try:
                 rows_before = parse_csv(fs.files.get(fpath, b""))
             except Exception:  # noqa
                 rows_before = None
-            attrs = op.get("attrs") or next(
-                (w["attrs"] for w in R.writers.values()
-                 if w["path"] == fpath), ["trs", "desc"])
-            src = R.srcs[0]
-            tr = tracts_of(pytrs, src)
-            expect = []
-            if fpath not in fs.files:
-                expect.append(header_spec(pytrs, attrs, None, None, None))
-            expect += [[cell_spec(t, a) for a in attrs] for t in tr]
+            rec_before = bytes(fs.files.get(fpath, b"")) \
+                if fpath in fs.files else None
+            expect = expected_rows()
+            fs.calls, fs.trace, fs.fired = 0, [], None
+            fs.op_tag = "recovery"
+            if fault2 is not None:
+                fs.fault = {"at": fault2[0], "kind": fault2[1],
+                            "errno": plan["errno"].get(fault2[1])}
+            rec_out = None
             try:
-                if k % 2 == 0:
-                    src.tracts_to_csv(attrs, fpath, "a")
-                else:
-                    w2 = R.TW(attrs, fpath, "a")
-                    w2.write(src)
-                    w2.close()
-                rows_after = parse_csv(fs.files.get(fpath, b""))
-                if rows_before is not None:
-                    got_new = rows_after[len(rows_before):]
-                    if rows_after[:len(rows_before)] != rows_before:
-                        problems.append({
-                            "oracle": "recovery_rewrote_old_rows",
-                            "path": kindf,
-                            "detail": {"op_index": k, "fault": fault}})
-                    diff = rows_match(expect, got_new)
-                    if diff:
-                        problems.append({
-                            "oracle": "recovery_append_wrong", "path": _cls(diff),
-                            "detail": {"op_index": k, "fault": fault,
-                                       "diff": diff, "repair": did}})
-                R.bump("recovered")
+                recover(k)
+            except SimCrash:
+                rec_out = "SimCrash"
             except Exception as e:  # noqa
+                rec_out = type(e).__name__
+                rec_os = isinstance(e, OSError)
+            if fault2 is None:
+                if rec_out is not None:
+                    problems.append({
+                        "oracle": "recovery_raised", "path": rec_out,
+                        "detail": {"op_index": k, "fault": fault,
+                                   "raised": rec_out, "repair": did}})
+                else:
+                    try:
+                        check_append(rows_before, expect, "recovery", did)
+                        R.bump("recovered")
+                    except Exception as e:  # noqa
+                        problems.append({
+                            "oracle": "recovery_unreadable",
+                            "path": type(e).__name__,
+                            "detail": {"op_index": k, "fault": fault}})
+                extra = {"rec_trace": [(t[0], t[1]) for t in fs.trace],
+                         "rec_after": bytes(fs.files.get(fpath, b""))
+                         if fpath in fs.files else None,
+                         "rec_before": rec_before, "rec_path": fpath}
+            elif fs.fired is not None:
+                # ---- the second fault fired inside the recovery op
+                kind2 = fs.fired[1]
+                R.bump("second_fault_fired:" + kind2)
+                now2 = bytes(fs.files.get(fpath, b"")) \
+                    if fpath in fs.files else None
+                want_after = twin2["rec_after"]
+                if kind2 == "short":
+                    if rec_out is not None or now2 != want_after:
+                        problems.append({
+                            "oracle": "second_short_write_not_retried",
+                            "path": kind2,
+                            "detail": {"fault": fault, "fault2": fault2,
+                                       "raised": rec_out}})
+                else:
+                    if rec_out is None:
+                        problems.append({
+                            "oracle": "second_fault_swallowed", "path": kind2,
+                            "detail": {"op_index": k, "fault": fault,
+                                       "fault2": fault2}})
+                    d2 = now2 or b""
+                    b2 = rec_before or b""
+                    unchanged = now2 == rec_before
+                    atomic = now2 == want_after
+                    if not (unchanged or atomic or (
+                            (want_after or b"").startswith(d2)
+                            and d2.startswith(b2))):
+                        problems.append({
+                            "oracle": "second_fault_damaged_file",
+                            "path": kind2,
+                            "detail": {"op_index": k, "fault": fault,
+                                       "fault2": fault2, "len": len(d2),
+                                       "before": len(b2),
+                                       "want": len(want_after or b"")}})
+                    # repair again; now the recovery must go through
+                    fs.fault = None
+                    did2 = fs.repair(fpath)
+                    try:
+                        rows2 = parse_csv(fs.files.get(fpath, b""))
+                    except Exception:  # noqa
+                        rows2 = None
+                    exp2 = expected_rows()
+                    try:
+                        recover(k + 1)
+                        check_append(rows2, exp2, "third_recovery", did2)
+                        R.bump("recovered_after_two_faults")
+                    except Exception as e:  # noqa
+                        problems.append({
+                            "oracle": "third_recovery_raised",
+                            "path": type(e).__name__,
+                            "detail": {"op_index": k, "fault": fault,
+                                       "fault2": fault2}})
+        # The caller's error log finally lets go of the exception (and with
+        # it of every frame and file object the traceback kept alive).
+        # Whatever finalisers run now, the files must not change any more
+        # (crashed runs excepted: their handles are fenced anyway).
+        # Only for tracts_to_csv: that call owns its handle from open to
+        # close (a `with` block); a TractWriter's handle lives as long as the
+        # writer object, and a constructor cut short by an interrupt leaves
+        # an object nobody can close -- true of any Python class, not a
+        # defect of this one (the first version of this oracle flagged that
+        # on the unchanged tree: a false alarm, corrected).
+        if kept_exc and kindf != "crash" and op["op"] == "csv":
+            import gc
+            snap = durable(fs)
+            kept_exc.clear()
+            e = None  # noqa
+            gc.collect()
+            if durable(fs) != snap:
                 problems.append({
-                    "oracle": "recovery_raised", "path": type(e).__name__,
+                    "oracle": "late_finaliser_changed_file", "path": kindf,
                     "detail": {"op_index": k, "fault": fault,
-                               "raised": type(e).__name__, "repair": did}})
-    return {"problems": problems, "stats": R.stats}
+                               "interrupt": interrupt}})
+    res = {"problems": problems, "stats": R.stats}
+    res.update(extra)
+    return res
 
 
 def _strip(o):
@@ -958,12 +1111,16 @@ def _driver(plan, tier):
         exhaustive = False
         bump("workloads_with_sampled_fault_points")
     fault_free_clean = not failures
+    singles = {}
     if fault_free_clean:
         for pt in points:
             res = fork_call(run_workload, (plan, srcs, pt, None, twin),
                             timeout=60)
             execs += 1
             bump("fault_runs")
+            if res.get("rec_trace") and not res["problems"] \
+                    and pt[1] != "short":
+                singles[pt] = res
             for k2, v in res["stats"].items():
                 if k2.startswith(("fault_fired", "repair", "recovered",
                                   "writer_reuse")):
@@ -976,6 +1133,35 @@ def _driver(plan, tier):
                     "phase": "faulted"})
             if len(failures) > 20:
                 break
+        # ---- fault sequences: a second fault inside the recovery op
+        cand = sorted(singles)
+        chosen = []
+        for sel in plan.get("double", []):
+            if cand:
+                chosen.append(cand[sel % len(cand)])
+        for pt in sorted(set(chosen)):
+            s1 = singles[pt]
+            for (ci, ckind) in s1["rec_trace"]:
+                for fk in FAULT_KINDS[ckind]:
+                    res = fork_call(
+                        run_workload,
+                        (plan, srcs, pt, None, twin, None, (ci, fk), s1),
+                        timeout=60)
+                    execs += 1
+                    bump("double_fault_runs")
+                    for k2, v in res["stats"].items():
+                        if k2.startswith(("second_fault_fired",
+                                          "recovered_after_two")):
+                            bump(k2, v)
+                    for pr in res["problems"]:
+                        failures.append({
+                            "oracle": pr["oracle"], "path": pr["path"],
+                            "path_class": path_class(str(pr["path"])),
+                            "detail": dict(pr["detail"], fault=list(pt),
+                                           fault2=[ci, fk]),
+                            "phase": "double_fault"})
+                if len(failures) > 20:
+                    break
         for it in plan["interrupts"]:
             if it[0] >= len(plan["ops"]) + 2:
                 continue
